@@ -339,6 +339,16 @@ class RaceSim:
                     out.exception = e
                 if system.hang and not out.hang:
                     out.hang = system.hang
+                if not out.hang and not getattr(system, "shutting_down", False):
+                    # `esrally race` has returned, but the actors live in the daemon's actor system (several hosts) and go on handling
+                    # what is queued for them, e.g. a completion message that was on its way when the race failed
+                    system.shutting_down = True
+                    saved_hang, system.interrupt_at = system.hang, None
+                    try:
+                        system.run_until_quiescent(60.0)
+                    except SimHang:
+                        pass
+                    system.hang = saved_hang
                 # artefacts
                 race_file = os.path.join(self.home, ".rally", "benchmarks", "races", "race-sim-1", "race.json")
                 if os.path.exists(race_file):
